@@ -10,7 +10,10 @@ Inductive c09case :=
 | DEC (p : packet) (b : bytes) (r : dres) (maxreq : Z)
 | VI (v : Z) (b : bytes) (back : option Z) (rest : Z)
 | VL (v : Z) (b : bytes) (back : option Z) (rest : Z)
-| VR (raw : bytes) (r32 : option (Z * Z)) (r64 : option (Z * Z)).
+| VR (raw : bytes) (r32 : option (Z * Z)) (r64 : option (Z * Z))
+(* sweep: every stride-th i32 (all 2^32 in the thorough tier) through the real writer/reader
+   against an independent LEB128; [bad] = number of disagreements *)
+| VX (stride count bad first_bad : Z).
 
 Fixpoint fv_eqb (a b : fv) : bool :=
   match a, b with
@@ -98,6 +101,7 @@ Definition check_c09 (c : c09case) : Z :=
             && match read_varlong_n varlong_read_iters raw, r64 with
                | Ok x r, Some (y, n) => (x =? y) && (Z.of_nat (length r) =? n)
                | Er _, None => true | _, _ => false end)
+  | VX _ count bad _ => moni ((bad =? 0) && (0 <? count))
   end.
 
 (* the decoder half of C04 on the same DEC cases: no panic, and no allocation request out
